@@ -342,7 +342,9 @@ def run(pid, tier, seed, replay):
     plans = [{}, {"nested": ["1:1"]}, {"fail": ["1:1"]}, {"fail": ["2:1"], "nested": ["1:1"]},
              # a tolerant machine and a sender whose event only exists once the machine has moved: it fires or is ignored
              # according to the state WHEN ITS TURN COMES, whatever the state was when it was sent
-             {"gated": [2]}, {"gated": [2], "fail": ["1:1"]}]
+             {"gated": [2]}, {"gated": [2], "fail": ["1:1"]},
+             # a listener without callbacks attached from inside a callback, while other senders are around
+             {"listen": ["1:1"], "nested": ["1:1"]}]
     with ProcessPoolExecutor(max_workers=14) as pool:
         # 2. real threads, bounded preemption at every line boundary of the dispatch code
         for (n, per) in [(2, 1), (2, 2), (3, 1)]:
@@ -358,7 +360,7 @@ def run(pid, tier, seed, replay):
         # 3. asyncio tasks, every choice of ready handle
         for (n, per, yields) in [(2, 1, 1), (3, 1, 1), (2, 2, 1)] + ([] if quick else [(3, 1, 2), (4, 1, 1)]):
             runs = []
-            for plan in (plans[:3] + plans[4:5]) if quick else plans:
+            for plan in (plans[:3] + plans[4:5] + plans[6:7]) if quick else plans:
                 runs += explore_asyncio(pool, n, per, plan, yields, cap=300 if quick else 8000)
             chk.cov_add("asyncio_schedules", len(runs))
             pend = [r for r in runs if r.get("pending")]
